@@ -23,7 +23,8 @@ fi
 git apply $CTX "$PATCH"
 trap 'cd /repo && git checkout -q -- . ' EXIT INT TERM
 for ID in "$@"; do
-    OUT="$(cd /verif && timeout 1500 ./check "$ID" quick 2>&1)"
+    # Evidence of a run on a changed tree must not replace the committed evidence
+    OUT="$(cd /verif && VERIF_EVIDENCE_NAME="$ID.patched-tree.json" timeout 1500 ./check "$ID" quick 2>&1)"
     CODE=$?
     FIRST="$(printf '%s\n' "$OUT" | grep -m1 '^VIOLATION' | cut -c1-260)"
     N="$(printf '%s\n' "$OUT" | grep -c '^VIOLATION')"
